@@ -23,6 +23,7 @@ func init() {
 			"R4":  "refusal guard: seat-id stores dominated by active count ≥ 2; refusals only under active count < 2 or unsupported rule",
 			"R5":  "scan-helper shape: offsets 1..MaxSeat-1, first match of exactly its predicate, unset otherwise; the backwards search with an eligible-only switch returns the first occupied seat, with the switch on the first eligible one (path by path)",
 			"R6":  "eligibility definition and active-count definition; the count starts at 0",
+			"R11": "the remembered dealer / SB / BB seats and the initialised mark are written only by the first positioning, the rotation and their exported wrappers (a fresh manager starts unset)",
 			"R9":  "the open step initialises positions only on the first hand and rotates them exactly once on every later hand (shared with C05.R1)",
 			"R10": "the has-chips flag read by the big-blind scan is refreshed by every bankroll writer for the credited player, from the new bankroll (shared with C05.R4): a player who tops up between hands is not skipped",
 			"R8":  "waiting arc (dealer, bb) exclusive at both ends, also across the wrap (shared with C05.R5): the rotation re-evaluates non-active seats with it before choosing the next big blind — only them, all of them, on every rotation (shared with C05.R6)",
@@ -330,6 +331,52 @@ func checkC04(c *Ctx) {
 		}
 		return false
 	}}
+	// R11: the memory of the last hand's button and blinds has no writer besides the first positioning and the
+	// rotation (a fresh manager starts unset): a third writer — a reset when the table drains, a "repair" on
+	// leave — breaks the chain "SB ← old BB, dealer ← old SB" the dead-button rule is made of
+	{
+		allowed := map[*ssa.Function]bool{rot: true, rotW: true}
+		if iw := p.Method(smT, "InitPositions"); iw != nil {
+			allowed[iw] = true
+			for _, ci := range Calls(iw) {
+				if sc := ci.Common().StaticCallee(); sc != nil && inSeatManagerPkg(p, sc) && errResultIndex(sc.Signature) >= 0 {
+					allowed[sc] = true
+				}
+			}
+		}
+		nW := 0
+		okW := true
+		for _, f := range p.Funcs {
+			if !inSeatManagerPkg(p, f) {
+				continue
+			}
+			top := f
+			for top.Parent() != nil {
+				top = top.Parent()
+			}
+			for _, b := range f.Blocks {
+				for _, in := range b.Instrs {
+					st, isSt := in.(*ssa.Store)
+					if !isSt || rawLocal(st.Addr) {
+						continue
+					}
+					a := p.Sym(st.Addr).Strip()
+					if !(a.Kind == "field" && a.Owner == "seatManager" && (a.Name == "DealerSeatID" || a.Name == "SBSeatID" || a.Name == "BBSeatID" || a.Name == "IsInit")) {
+						continue
+					}
+					nW++
+					if !allowed[top] {
+						okW = false
+						c.Bad("R11", "position-memory-writer:"+fnName(top)+":"+a.Name, p.InstrPos(in), fnName(top)+" writes "+a.Name+": the button / blind seats of the last hand (and the initialised mark) are moved only by the first positioning and by the rotation — any other writer forgets or rewrites what the dead-button rule carries from hand to hand")
+					}
+				}
+			}
+		}
+		if okW {
+			c.Ok("R11", "position-memory-writers", p.Pos(rot.Pos()), fmt.Sprintf("%d stores, all in the first positioning / the rotation and their wrappers", nW))
+		}
+		c.Min("R11", "stores to the position memory", nW, 12)
+	}
 	// R3
 	for _, f := range []*ssa.Function{rot, rotW} {
 		imps := p.ErrorImpurities(f, seatW)
